@@ -1,5 +1,5 @@
 //@host src/streams/control.rs::command_pid
-//@config dev
+//@config dev,std_nocheck
 // C05 one-step contracts of CommandPID over an ARBITRARY pre-state (Update0 / Update1 are private to the inline
 // module `command_pid`, which hosts this module).  No data invariant is needed: the `unimplemented!()` arm of
 // `get` is shown unreachable for every state.  Values of the PID formulas are C11's business (Verus); here only
@@ -286,6 +286,18 @@ fn c05_cpid_follow_absent_same() {
 // implementation compares with (the Verus unit c11_cpid covers `impl_set` alone, against `self.command`).
 // ------------------------------------------------------------------------------------------------
 
+/// The meaning of "equal commands", written out independently of the crate's `PartialEq for Command`: same kind and
+/// IEEE-equal payloads (what the derive generates).  Used instead of `==` so that a changed `eq` cannot move both the
+/// code and the expectation.
+fn cmd_same(a: Command, b: Command) -> bool {
+    match (a, b) {
+        (Command::Position(x), Command::Position(y)) => x == y,
+        (Command::Velocity(x), Command::Velocity(y)) => x == y,
+        (Command::Acceleration(x), Command::Acceleration(y)) => x == y,
+        _ => false,
+    }
+}
+
 //@ob fn="<CommandPID<G,E> as Settable<Command,E>>::set" at=src/streams/control.rs:138 prop=C11 clause="set(c) through the public trait method on an ARBITRARY state (any last request, any history): c == current command (derived ==) leaves command and the whole update_state bit-unchanged; c != current stores c and restarts (update_state Ok(None)); always Ok, records c as the last request, does not touch following or the k-values, reads no input"
 #[kani::proof]
 fn c11_cpid_set_equal_noop_different_restarts() {
@@ -293,7 +305,7 @@ fn c11_cpid_set_equal_noop_different_restarts() {
     let mut s = any_cp(rf(&mut inp));
     let pre = snap(&s);
     let c: Command = kani::any();
-    let same = c == pre.command;
+    let same = cmd_same(c, pre.command);
     let r = s.set(c);
     assert!(r == Ok(()));
     let post = snap(&s);
@@ -320,7 +332,7 @@ fn c11_cpid_follow_present_is_set_then_step() {
     let ft: Time = kani::any();
     let mut fol = Scripted::<Command>::new(Ok(Some(Datum::new(ft, c))));
     let mut s = any_cp(rf(&mut inp));
-    let same = c == s.command;
+    let same = cmd_same(c, s.command);
     let mut t = CommandPID {
         settable_data: SettableData { following: None, last_request: Some(c) },
         input: rf(&mut inp),
@@ -346,7 +358,7 @@ fn c11_cpid_follow_equal_keeps_history() {
     let mut s = any_cp(rf(&mut inp));
     kani::assume(a7(&s, &Ok(Some(d))));
     let c: Command = kani::any();
-    kani::assume(c == s.command);
+    kani::assume(cmd_same(c, s.command));
     let mut fol = Scripted::<Command>::new(Ok(Some(Datum::new(kani::any(), c))));
     s.settable_data.following = Some(rf_dyn(&mut fol));
     let pre_cmd = s.command;
